@@ -178,6 +178,21 @@ def outcome(item, problems):
             finally:
                 if ET.tostring(p._root) != root_before:
                     problems.append(("frame", label, "convert modified the parsed element tree", root_before[:300], ET.tostring(p._root)[:300]))
+            # the documented use: edit the parsed tree in place, then convert again - the second conversion is the conversion
+            # of the tree as it is NOW (whatever an earlier convert() on this parser did), and hands out objects of its own
+            def _oc(f):
+                try:
+                    return ("ok", ET.tostring(f().to_etree()))
+                except Exception as ex:
+                    return ("raised", type(ex).__name__)
+            parents = [n_ for n_ in p._root.iter() if len(n_)]
+            victim_parent = parents[-1] if parents else p._root
+            if len(victim_parent):
+                victim_parent.remove(victim_parent[-1])
+                want = _oc(lambda: Aggregate.from_etree(copy.deepcopy(p._root)))
+                got = _oc(p.convert)
+                if got != want:
+                    problems.append(("history", label, "convert() after an in-place edit of the parsed tree is not the conversion of the edited tree", want[1][:300] if isinstance(want[1], bytes) else want[1], got[1][:300] if isinstance(got[1], bytes) else got[1]))
         snap = frame_snapshot(m)
         out1 = ET.tostring(m.to_etree())
         if frame_snapshot(m) != snap:
